@@ -13,13 +13,13 @@ MANIFEST = {
             "registration permutations and repetitions (Go randomises map iteration natively): each run must equal the model and "
             "the runs must agree with each other; registration phase: c10_refusal_order_irrelevant (whether a component set is refused "
             "does not depend on the registration order), checked on sets with several components under one name (distinct zero-size "
-            "types among them) started in every relative registration order; the EXTENDED model (Model/FactoryX.v: Init methods that look components up, post-processors that short-circuit instantiation) carries every run-level invariant family as well (Proofs/FactoryX*.v, theorems *_extended) and is what the correspondence evaluates; scenarios end with Factory.GetComponents(), are restarted on the same App value, have another App started before or in the middle, and include crowds of 24..36 instances of one type; some ordinary components are also (do-nothing) factory or definition-registry post-processors that look at the registry, and named and unnamed instances of one type stand side by side, callbacks fail with the component in hand, func points name methods that take parameters, two instantiations of one generic type are registered under their default names",
+            "types among them) started in every relative registration order; the EXTENDED model (Model/FactoryX.v: Init methods that look components up, post-processors that short-circuit instantiation) carries every run-level invariant family as well (Proofs/FactoryX*.v, theorems *_extended) and is what the correspondence evaluates; scenarios end with Factory.GetComponents(), are restarted on the same App value, have another App started before or in the middle, and include crowds of 24..36 instances of one type (one scenario of a run: 55..57, more than 64 singletons); some ordinary components are also (do-nothing) factory or definition-registry post-processors that look at the registry, and named and unnamed instances of one type stand side by side, callbacks fail with the component in hand, func points name methods that take parameters, two instantiations of one generic type are registered under their default names",
     "design_ref": "DESIGN.md 5 C10",
     "note": "trusted: as C01; the parallel scanning phase is covered by C20's interleaving model, here only its result is observed",
     "technique": "Rocq proof (permutation invariance of the model) + vm_compute correspondence under permuted registration orders",
 }
 
-PROFILES = [(Profile(p_wrap=0.3, n_procs=(0, 2), p_cycle_bias=0.8, p_primary=0.3, p_extra_instance=0.4, p_crowd=0.05, p_crowd_big=0.4), 130, 1200)]
+PROFILES = [(Profile(p_wrap=0.3, n_procs=(0, 2), p_cycle_bias=0.8, p_primary=0.3, p_extra_instance=0.4, p_crowd=0.05, p_crowd_big=1.0), 130, 1200)]
 # component sets in which several components announce ONE name (the start must be refused in every registration order)
 SHARED_PROFILE = Profile(p_wrap=0.0, n_procs=(0, 1), n_bare=(2, 4), p_sealed=0.5, p_naming=0.7, p_extra_instance=0.3,
                          p_valid=0.8, min_types=1, max_types=4,
